@@ -5,10 +5,10 @@
     SMT-LIB side ([scheck], [seval], [cmd_check], [symbol_name], ...) is the reference front
     end of [Spec/Smt.v], written from the standard.  [ebv]/[earr] is the semantics of the IR.
 
-    The model has two variants ([SmtSer.variant]): [Cur] mirrors /repo as it is, [Fix] mirrors
-    /repo with patches/0014 (reserved words are quoted) and patches/0015 (set-info is written
-    as set-info).  Theorems that hold for both are stated for every [v]; the recorded defects
-    are [_refuted] theorems about [Cur], the full-strength statements are theorems about [Fix].
+    The model has the variants ([SmtSer.variant]) [Cur] = /repo before the repairs, [Fix] = /repo
+    with patches/0014 (reserved words are quoted) and patches/0015 (set-info is written as
+    set-info), [Fix2] = [Fix] for the writer (it differs in the reader, C14).  Theorems that hold for both are stated for every [v]; the recorded defects
+    are [_refuted] theorems about [Cur], the full-strength statements are theorems about every [v <> Cur].
     The driver's constant [code_variant] says which variant the checked code is. *)
 From Patronus Require Import SmtSer SmtSerLemmas SmtSemLemmas SmtSerProofs SmtCmdProofs SmtSpecProofs.
 Open Scope string_scope.
@@ -38,8 +38,8 @@ Print Assumptions C05_ser_type_sound.
 (** Identifier quoting, repaired code (patches/0014): EVERY name made of characters that may
     appear between bars is written as one symbol token denoting exactly that name. *)
 Theorem C05_escape_sound :
-  forall n : string, name_chars_ok n = true -> symbol_name (escape_id Fix n) = Some n.
-Proof. exact escape_sound_fix. Qed.
+  forall (v : variant) (n : string), v <> Cur -> name_chars_ok n = true -> symbol_name (escape_id v n) = Some n.
+Proof. exact escape_sound_repaired_lemma. Qed.
 Print Assumptions C05_escape_sound.
 
 (** ... current code: the same for names that are not reserved words (both variants). *)
@@ -85,8 +85,8 @@ Print Assumptions C05_assumption_literal.
 
 (** Repaired code (patches/0015): every command carries the name SMT-LIB gives it. *)
 Theorem C05_cmd_head :
-  forall c t, ser_cmd Fix c = Ok t -> sx_head t = Some (cmd_std_head c).
-Proof. exact cmd_head_fix. Qed.
+  forall v c t, v <> Cur -> ser_cmd v c = Ok t -> sx_head t = Some (cmd_std_head c).
+Proof. exact cmd_head_repaired. Qed.
 Print Assumptions C05_cmd_head.
 
 (** Recorded defect of the current code: [SetInfo] is written with the command name [set-option];
